@@ -22,7 +22,7 @@
     it is the only additive-consistent behaviour short of refusing; the model does the same ([sub_cell]) and the
     correspondence check pins the behaviour. *)
 From Coq Require Import ZArith QArith Qabs List Bool Lia.
-From Bermuda Require Import Model.Base Lib.Calendar Model.Summarize Model.Aggregate.
+From Bermuda Require Import Model.Base Lib.Calendar Model.Summarize Model.Aggregate Proofs.CalendarP.
 From Bermuda Require Import Model.Blend Model.Units Proofs.BlendP Proofs.UnitsP Proofs.UnitsQ Proofs.UnitsAgg Proofs.UnitsShare.
 Import ListNotations.
 Local Open Scope Q_scope.
@@ -68,9 +68,12 @@ Theorem C18_disaggregate_cell : forall res_new n ws fields c outs,
 Proof. exact disagg_cell_spec. Qed.
 Print Assumptions C18_disaggregate_cell.
 
-(* aggregate o disaggregate = id at the original resolution, for a fully observable month-aligned cell of
-   1970-2100 (months a .. a+n*r-1, any n, r >= 1 -- in particular resolutions 3/6/12 with divisor
-   sub-resolutions), fields in `fields`, any weights with non-zero sum.
+(* aggregate o disaggregate = id at the original resolution, for a fully observable month-aligned cell
+   (months a .. a+n*r-1 of any year >= 1: a > MINID = January of year 1; any n, r >= 1 -- in particular
+   resolutions 3/6/12 with divisor sub-resolutions), fields in `fields`, any weights with non-zero sum.
+   Calendar facts: wp-basis's unbounded Proofs/CalendarP.v.  Tie: Calendar.addm is the source's float-based
+   add_months only where C12's bridge theorem says so (month-aligned dates of 1970-2100); outside that range the
+   statement is about the model.
    Aggregate side: wp-summ's Model/Aggregate.v, through its loop-free specification [ref_slice] (closed-form
    windows, the function C08's agg_ref applies to every slice; C08 ties it to the walk model `aggregate` and to
    the code on every run) and its lemma scv_sum_entry (= C08_window_field_is_sum).
@@ -79,10 +82,10 @@ Print Assumptions C18_disaggregate_cell.
    Conclusion: whenever the aggregation yields a result it is exactly ONE cell with the original period,
    evaluation date and metadata, and every disaggregated additive field carries numerically the original value
    (the implementation returns floats for ints, hence `value_numeq`).
-   What is left to the per-case check on the real code (harness/c18.py, oracle_reaggregate): the lifting from one
-   original cell to a whole multi-period, multi-slice triangle, and non-representable (non-dyadic) quotients. *)
+   What is left to the per-case check on the real code (harness/c18.py, oracle_reaggregate): non-representable
+   (non-dyadic) quotients, and the agreement of ref_slice with the walk model / the code (C08's tie). *)
 Theorem C18_disaggregate_roundtrip : forall wavg rules nl fields c a (r n : nat) ws outs cs' eo prem out,
-  (1 <= a <= 1571)%Z -> (0 < r)%nat -> (0 < n)%nat -> (a + Z.of_nat (n * r) <= 1572)%Z ->
+  (CalendarP.MINID < a)%Z -> (0 < r)%nat -> (0 < n)%nat ->
   aligned c a (Z.of_nat (n * r)) -> (pe c <= ev c)%Z ->
   length ws = n -> ~ qsum ws == 0 ->
   disagg_cell r n ws fields c = Ok outs ->
@@ -95,6 +98,30 @@ Theorem C18_disaggregate_roundtrip : forall wavg rules nl fields c a (r n : nat)
       (prem = true \/ Summarize.mem_str f nl = false) -> value_numeq v' v.
 Proof. exact disaggregate_then_aggregate. Qed.
 Print Assumptions C18_disaggregate_roundtrip.
+
+(* ... lifted to a whole slice: fully observable month-aligned cells on ONE period grid (base month a0,
+   resolution n*r; any number of periods and evaluation dates, pairwise different coordinates), each disaggregated
+   into n sub-periods (weights may differ per cell) and adapted; `blocks` pairs every original cell with its
+   sub-period cells.  Re-aggregating ALL sub-period cells of the slice at the original resolution (ref_slice, i.e.
+   what agg_ref does per slice -- a multi-slice triangle is handled slice by slice) returns, whenever it returns
+   anything: one output cell per original coordinate and vice versa, no duplicates, the original metadata, each
+   original cell's sub-periods landing in its own window, every disaggregated additive field numerically the
+   original value.  (That summarize_cell_values succeeds stays a hypothesis: `= Ok out`.) *)
+Theorem C18_disaggregate_roundtrip_slice : forall wavg rules nl fields a0 (r n : nat) blocks eo prem out,
+  (CalendarP.MINID < a0)%Z -> (0 < r)%nat -> (0 < n)%nat ->
+  Forall (block_ok fields a0 r n) blocks ->
+  NoDup (map (fun b => coord3 (fst b)) blocks) ->
+  ref_slice wavg rules nl (mkArgs (Some (RMonth (Z.of_nat (n * r)))) None (month_start a0 - 1)%Z eo prem)
+            (concat (map snd blocks)) = Ok out ->
+  NoDup (map coord3 out) /\
+  (forall b, In b blocks -> exists o, In o out /\ coord3 o = coord3 (fst b)) /\
+  (forall o, In o out ->
+     exists b, In b blocks /\ coord3 o = coord3 (fst b) /\ ckind o = KCum /\ cmeta o = cmeta (fst b) /\
+       forall f v v', Units.mem_str f fields = true -> assoc f (cvals (fst b)) = Some v -> v <> VNone ->
+         In (f, v') (cvals o) -> lookup_rule rules f = Some (RSum f) ->
+         (prem = true \/ Summarize.mem_str f nl = false) -> value_numeq v' v).
+Proof. exact disaggregate_then_aggregate_slice. Qed.
+Print Assumptions C18_disaggregate_roundtrip_slice.
 
 (* the amount-level core, for ANY dates and any (also non-representable) values: the sub-period cells of one
    original cell and evaluation date add up to the original value *)
@@ -162,6 +189,18 @@ Theorem C18_aq_to_py_conservation_continuous : forall L quarters f e om cells ev
   out_amount ep cells evd fld k == in_amount cells evd fld k.
 Proof. exact aq_conservation_continuous. Qed.
 Print Assumptions C18_aq_to_py_conservation_continuous.
+
+(* F18, finer cut: with non-continuous issuance (all premium written in the first month of the policy year) the
+   earning months of policy year s are s .. s+L; for policies of at least 11 months they tile the calendar and
+   conservation holds as well; for shorter policies the months s+L+1 .. s+11 earn nothing (refutation below). *)
+Theorem C18_aq_to_py_conservation_noncontinuous_long_policies : forall L quarters f e om cells evd fld k,
+  (11 <= L)%Z ->
+  (forall c, In c (cells_at evd cells) ->
+     In (cperiod c) quarters /\ exists j, (f <= j <= e)%Z /\ in_period (cperiod c) (month_start j) = true) ->
+  let ep := code_share_table false L quarters (py_start_ids (py_first_start f om) e) in
+  out_amount ep cells evd fld k == in_amount cells evd fld k.
+Proof. exact aq_conservation_noncontinuous. Qed.
+Print Assumptions C18_aq_to_py_conservation_noncontinuous_long_policies.
 
 (* F18 with the code's own table: non-continuous issuance, 6-month policies, the four quarters of 2020 (month ids
    600..611), origin January: the fourth quarter gets no share at all *)
@@ -282,6 +321,22 @@ Proof.
   eexists. eexists. split; [vm_compute; reflexivity|]. split; [vm_compute; reflexivity|].
   split; [reflexivity|]. vm_compute. reflexivity.
 Qed.
+
+(* two periods of one slice (2020 and 2021, grid base month 600): all eight sub-period cells re-aggregate to
+   exactly the two original cells *)
+Definition ex_rc2 : cell :=
+  mkCell KCum 737791%Z 738155%Z 738155%Z None default_meta [(pl, VNum (Num true (1024 * 60)))].
+Example C18_ex_roundtrip_slice :
+  match disagg_cell 3 4 [1#8; 3#8; 1#4; 1#4] [pl] ex_rc, disagg_cell 3 4 [1#4; 1#4; 1#4; 1#4] [pl] ex_rc2 with
+  | Ok o1, Ok o2 =>
+      match all_some (map cell_of_ucell (o1 ++ o2)) with
+      | Some cs => ref_slice wavg_mask [(pl, RSum pl)] [] (mkArgs (Some (RMonth 12)) None (month_start 600 - 1)%Z 0%Z true) cs
+                   = Ok [ex_rc; ex_rc2]
+      | None => False
+      end
+  | _, _ => False
+  end.
+Proof. vm_compute. reflexivity. Qed.
 
 Example C18_ex_aq_to_py :
   covered ex_ep_good ex_cells = true
